@@ -160,10 +160,22 @@ func TestShardBasicRapid(t *testing.T) {
 		if len(ins) == 0 {
 			return
 		}
-		r := fakekv.NewRing(cfg(za, false), desc(ins, now, 0))
+		// a sixth of the zone-aware clients are configured to leave a zone out, and the ring in the store has
+		// instances of that zone: for such a client the ring content is the content without them
+		stored := ins
+		c1, c2 := cfg(za, false), cfg(za, true)
+		if za && rapid.IntRange(0, 5).Draw(rt, "excludedZone") == 0 {
+			stored = append([]inst{}, ins...)
+			for k := 0; k < rapid.IntRange(1, 3).Draw(rt, "excludedInstances"); k++ {
+				stored = append(stored, inst{ID: fmt.Sprintf("left-out-%d", k), Zone: "zz-left-out", Tokens: drawTokens(rt, 2, used), Registered: now.Unix() - 1000})
+			}
+			c1.ExcludedZones, c2.ExcludedZones = []string{"zz-left-out"}, []string{"zz-left-out"}
+			vx.Class("clients_configured_to_leave_a_zone_out", 1)
+		}
+		r := fakekv.NewRing(c1, desc(stored, now, 0))
 		defer r.Stop()
 		// second client: same content, other states/heartbeats, cache on
-		r2 := fakekv.NewRing(cfg(za, true), desc(ins, now, 0))
+		r2 := fakekv.NewRing(c2, desc(stored, now, 0))
 		defer r2.Stop()
 		id := tenantGen.Draw(rt, "tenant")
 		zoneCount := map[string]int{}
